@@ -13,7 +13,7 @@ from vlib import oracle as orc
 from vlib import sym as gs
 from vlib.build import build, build_vector
 from vlib.driver import Report
-from vlib.par import pmap
+from vlib.par import pmap, run_groups
 from vlib.session import run_case, Violation
 from vlib import zt
 
@@ -438,8 +438,5 @@ def run(tier, seed, only=None):
                    "isfinite (numpy defines it only for machine dtypes)", "rounding"]
     rep.assumptions = ["division denominators are non-zero (reals for floats: no inf/nan)"]
     groups = build_family(tier, seed)
-    for name, (cases, ex) in groups.items():
-        if only and only not in name:
-            continue
-        rep.add_cases(name, pmap(_run, cases), exhaustive=ex)
+    run_groups(rep, groups, _run, only)
     return rep.finish()
